@@ -109,37 +109,41 @@ structure UpRes where
   err : Bool := false
   deriving Repr, DecidableEq, Inhabited
 
-/-- the first loop of `Client.update`: every target, in order -/
+/-- one target of the first loop of `Client.update`: create it when the cluster has no such
+object, otherwise patch (or replace) the live object against the original manifest -/
+def stepTarget (force three : Bool) (original : List Obj) (t : Obj) (r : UpRes) : UpRes :=
+  let log1 := r.log ++ [.get t.key]
+  match r.store.get? t.key with
+  | none => { r with store := r.store.put t, log := log1 ++ [.create t.key], created := r.created ++ [t.key] }
+  | some live =>
+    match original.find? (·.key = t.key) with
+    | none => { r with log := log1, err := true }          -- "no X with the name ... found"
+    | some old =>
+      let p := patched force three live old t
+      { r with store := if p.2 then r.store.put p.1 else r.store,
+               log := log1 ++ (if force then [.replace t.key] else if p.2 then [.get t.key, .patch t.key] else [.get t.key, .get t.key]) }
+
+/-- the first loop of `Client.update`: every target, in order, until the first error -/
 def updateTargets (force three : Bool) (original : List Obj) : List Obj → UpRes → UpRes
   | [], r => r
-  | t :: rest, r =>
-    if r.err then r else
-    let log1 := r.log ++ [.get t.key]
-    match r.store.get? t.key with
-    | none =>
-      updateTargets force three original rest
-        { r with store := r.store.put t, log := log1 ++ [.create t.key], created := r.created ++ [t.key] }
+  | t :: rest, r => if r.err then r else updateTargets force three original rest (stepTarget force three original t r)
+
+/-- one original of the second loop: delete it unless the target has it, the cluster lacks it,
+or the live object carries the keep policy -/
+def stepDelete (target : List Obj) (o : Obj) (r : UpRes) : UpRes :=
+  if (target.find? (·.key = o.key)).isSome then r
+  else
+    let log1 := r.log ++ [.get o.key]
+    match r.store.get? o.key with
+    | none => { r with log := log1 }
     | some live =>
-      match original.find? (·.key = t.key) with
-      | none => { r with log := log1, err := true }          -- "no X with the name ... found"
-      | some old =>
-        let (o, sent) := patched force three live old t
-        updateTargets force three original rest
-          { r with store := if sent then r.store.put o else r.store,
-                   log := log1 ++ (if force then [.replace t.key] else if sent then [.get t.key, .patch t.key] else [.get t.key, .get t.key]) }
+      if live.annos.get? policyAnno = some "keep" then { r with log := log1 }
+      else { r with store := r.store.del o.key, log := log1 ++ [.delete o.key] }
 
 /-- the second loop: `original.Difference(target)` -/
 def deleteRemoved (target : List Obj) : List Obj → UpRes → UpRes
   | [], r => r
-  | o :: rest, r =>
-    if (target.find? (·.key = o.key)).isSome then deleteRemoved target rest r
-    else
-      let log1 := r.log ++ [.get o.key]
-      match r.store.get? o.key with
-      | none => deleteRemoved target rest { r with log := log1 }
-      | some live =>
-        if live.annos.get? policyAnno = some "keep" then deleteRemoved target rest { r with log := log1 }
-        else deleteRemoved target rest { r with store := r.store.del o.key, log := log1 ++ [.delete o.key] }
+  | o :: rest, r => deleteRemoved target rest (stepDelete target o r)
 
 /-- `Client.update(original, target, force, threeWayMergeForUnstructured)` -/
 def update (force three : Bool) (original target : List Obj) (s : Store) : UpRes :=
@@ -148,19 +152,26 @@ def update (force three : Bool) (original target : List Obj) (s : Store) : UpRes
 
 /-! ### ownership pre-flight -/
 
+/-- may this release take the live object?  (`checkOwnership`, or anything with take-ownership) -/
+def mayAdopt (takeOwnership : Bool) (rel ns : String) (live : Obj) : Bool := takeOwnership || owned live rel ns
+
+/-- one resource of the pre-flight visit: a GET; an existing object is adopted or refuses the operation -/
+def pfStep (takeOwnership : Bool) (rel ns : String) (s : Store) (acc : Option (List Obj) × List Ev) (r : Obj) :
+    Option (List Obj) × List Ev :=
+  match acc.1 with
+  | none => acc
+  | some adopted =>
+    match s.get? r.key with
+    | none => (some adopted, acc.2 ++ [.get r.key])
+    | some live =>
+      if mayAdopt takeOwnership rel ns live then (some (adopted ++ [r]), acc.2 ++ [.get r.key])
+      else (none, acc.2 ++ [.get r.key])
+
 /-- `existingResourceConflict` (or `requireAdoption` with take-ownership): the resources that
 exist already and may be adopted, or a refusal -/
 def preflight (takeOwnership : Bool) (rel ns : String) (resources : List Obj) (s : Store) :
     Option (List Obj) × List Ev :=
-  resources.foldl (fun (acc : Option (List Obj) × List Ev) r =>
-    match acc.1 with
-    | none => acc
-    | some adopted =>
-      match s.get? r.key with
-      | none => (some adopted, acc.2 ++ [.get r.key])
-      | some live =>
-        if takeOwnership || owned live rel ns then (some (adopted ++ [r]), acc.2 ++ [.get r.key])
-        else (none, acc.2 ++ [.get r.key])) (some [], [])
+  resources.foldl (pfStep takeOwnership rel ns s) (some [], [])
 
 /-! ### the cluster side of the four operations (hooks aside) -/
 
@@ -199,11 +210,17 @@ def rollbackCluster (rel ns : String) (force : Bool) (current target : List Obj)
   let r := update force false current (target.map (stamp rel ns)) s
   ⟨r.store, r.log, !r.err⟩
 
+def isSpace (c : Char) : Bool := c = ' ' || c = '\t' || c = '\n' || c = '\r' || c = '\x0b' || c = '\x0c'
+def lowerChar (c : Char) : Char := if 'A' ≤ c ∧ c ≤ 'Z' then Char.ofNat (c.toNat + 32) else c
+/-- `strings.ToLower(strings.TrimSpace(v))`, ASCII part -/
+def normPolicy (v : String) : List Char :=
+  (((v.toList.dropWhile isSpace).reverse.dropWhile isSpace).reverse).map lowerChar
+
 /-- `filterManifestsToKeep` on the manifest (not the live object): keep / delete / neither -/
 def keepClass (o : Obj) : Option Bool :=     -- some true = keep, some false = delete, none = dropped from both lists
   match o.annos.get? policyAnno with
   | none => some false
-  | some v => if v.trimAscii.toString.toLower = "keep" then some true else none
+  | some v => if normPolicy v = ['k', 'e', 'e', 'p'] then some true else none
 
 structure UnRes where
   store : Store
